@@ -241,3 +241,39 @@ def resolve_elem(func, expr):
         if isinstance(base, (ast.Tuple, ast.List)) and -len(base.elts) <= expr.slice.value < len(base.elts):
             return resolve_local(func, base.elts[expr.slice.value])
     return expr
+
+
+def straightline_value(cfgnode, name, limit=12):
+    """value most recently bound to ``name`` on the straight-line code leading to a CFG node (walks back while there
+    is a single non-exceptional predecessor); None when no such binding is found"""
+    n = cfgnode
+    for _ in range(limit):
+        preds = [p for p, lab in n.pred if lab != "exc"]
+        if len(preds) != 1:
+            return None
+        n = preds[0]
+        a = n.ast
+        if n.kind == "stmt" and isinstance(a, ast.Assign) and len(a.targets) == 1 and isinstance(a.targets[0], ast.Name) \
+                and a.targets[0].id == name:
+            return a.value
+        if n.kind == "stmt" and isinstance(a, (ast.Assign, ast.AugAssign)) and any(
+                isinstance(x, ast.Name) and x.id == name and isinstance(x.ctx, ast.Store) for x in ast.walk(a)):
+            return None
+    return None
+
+
+def expand_straightline(cfgnode, expr, depth=3):
+    """names of ``expr`` replaced by the values bound to them on the straight-line code before the node (for reading
+    what a message / argument is made of; analysis only)"""
+    import copy
+    if depth <= 0:
+        return expr
+
+    class R(ast.NodeTransformer):
+        def visit_Name(self, node):
+            if isinstance(node.ctx, ast.Load):
+                v = straightline_value(cfgnode, node.id)
+                if v is not None and not any(isinstance(x, ast.Call) for x in ast.walk(v)):
+                    return expand_straightline(cfgnode, copy.deepcopy(v), depth - 1)
+            return node
+    return R().visit(copy.deepcopy(expr))
